@@ -12,7 +12,9 @@ RULE = ("Hypothesis over APIs x gRPC service configs (0..4 methodConfig entries,
         "clock (sleeps are recorded, return at once and advance time.monotonic). Oracle at the loopback server: attempt count, "
         "per-attempt deadline (<= entry timeout and >= timeout - measured elapsed - 0.35s; absent without timeout), waits <= "
         "min(initial*multiplier^i, max), give-up near the entry timeout, single attempt for unlisted codes / unnamed methods, overrides "
-        "win. Non-trivial: retry sequence with k >= 1 on a named method, forever-failing server, or an override; distinct = (entry "
+        "win. REST leg (transport grpc+rest, unary and server-streaming methods with a binding): the timeout handed to the HTTP session "
+        "(observed by wrapping AuthorizedSession.request; the request still reaches the loopback server) is the entry's timeout or the "
+        "explicit per-call one. Non-trivial: retry sequence with k >= 1 on a named method, forever-failing server, or an override; distinct = (entry "
         "shape, timeout?, mode, k, codes, client).")
 ASSUMPTIONS = ["retryPolicy.maxAttempts is not part of the statement: fault sequences stay within it",
                "service-wide entries ({service} without method) are not generated",
@@ -25,11 +27,12 @@ def budget(tier):
 
 @st.composite
 def _case(draw):
-    prof = S.profile(max_methods=5, max_services=2, p_http=0.2, p_sig=0.1, p_routing=0.05, p_paged=0.08, p_lro=0.03, p_stream=0.05,
+    prof = S.profile(max_methods=5, max_services=2, p_http=0.55, p_sig=0.1, p_routing=0.05, p_paged=0.08, p_lro=0.03, p_stream=0.15,
                      p_dep_io=0.05, p_comment=0.02, max_messages=3, max_fields=3, max_files=3, p_resource=0.05,
                      services_in_subpackages=True, p_subpackage=0.4)
     api = draw(S.apis(prof))
-    opts = {"params": ["autogen-snippets=False"], "snippets": False, "transport": "grpc"}
+    t = draw(st.sampled_from(["grpc", "grpc+rest"]))
+    opts = {"params": ["autogen-snippets=False", f"transport={t}"], "snippets": False, "transport": t}
     opts["retry_config"] = draw(S.retry_configs(api))
     return {"api": api, "options": opts, "inner": {"seed": draw(st.integers(0, 2 ** 31)), "n": 10}}
 
